@@ -336,15 +336,58 @@ pub fn response_for(op: &Op, stamp: u16) -> Resp {
                     k => ok(200 + k, None),
                 });
             }
+            // one header name reported on several lines with DIFFERENT spellings (the response
+            // folds them into one entry whose value order is observable), among more than nine
+            // distinct names; two content types with different charsets and a body that decodes
+            // differently under them
+            let spelled = |status: u16, spellings: &[(&str, &str)]| {
+                let mut headers: Vec<HttpHeader> = (1..=10)
+                    .map(|i| HttpHeader {
+                        name: format!("x-h{i}"),
+                        value: format!("{i}"),
+                    })
+                    .collect();
+                for (n, v) in spellings {
+                    headers.push(HttpHeader {
+                        name: n.to_string(),
+                        value: v.to_string(),
+                    });
+                }
+                HttpRes::Ok(HttpResponse {
+                    status,
+                    headers,
+                    // "é" in ISO-8859-1; not valid UTF-8
+                    body: vec![b'c', b'a', b'f', 0xe9, b],
+                })
+            };
             Resp::Http(match stamp % 7 {
-                0 => ok(201, None),
+                0 => spelled(
+                    201,
+                    &[
+                        ("Set-Cookie", "a=1"),
+                        ("set-cookie", "b=2"),
+                        ("SET-COOKIE", "c=3"),
+                        ("Content-Type", "text/plain; charset=utf-8"),
+                        ("content-type", "text/plain; charset=iso-8859-1"),
+                    ],
+                ),
                 1 => HttpRes::Ok(HttpResponse {
                     status: 404,
                     headers: vec![],
                     body: vec![b],
                 }),
                 2 => ok(302, Some(("location", format!("https://example.com/moved/{stamp}")))),
-                3 => ok(200, None),
+                3 => spelled(
+                    200,
+                    &[
+                        ("Vary", "accept"),
+                        ("vary", "origin"),
+                        ("VARY", "cookie"),
+                        ("Vary", "user-agent"),
+                        ("content-type", "text/plain; charset=iso-8859-1"),
+                        ("Content-type", "text/plain; charset=utf-8"),
+                    ],
+                ),
                 4 => ok(307, Some(("location", format!("hop{stamp}")))),
                 5 => HttpRes::ErrIo(format!("io{stamp}")),
                 _ => ok(301, Some(("location", format!("https://example.org/perm/{stamp}")))),
